@@ -134,10 +134,10 @@ func deepCopyType(t *Type) *Type {
 const DeepShapesDoc = "deep-shape families (per side): shape menu x position, JSON body only, no validations. " +
 	"quick: 13 attribute shapes (3 OneOf unions: primitives / with a user type / of aliases; user type holding a required and an optional union; array of it; array of user-in-user; " +
 	"map of user; map of arrays of user; array of arrays; array of maps; one user type at three positions; mutually recursive A<->B; defaults and required inside optional/required/array inner objects) " +
-	"x {required, optional} + 15 whole-body shapes (the 10 non-union ones, plus array of user, alias of string, alias of int; user types as the payload/result type itself) = 39 methods; " +
+	"x {required, optional} + 13 whole-body shapes (the 10 non-union ones, plus array of user, alias of string, alias of int; user types as the payload/result type itself) = 39 methods; " +
 	"thorough: 26 attribute shapes (adds union of array/map/string, 5-alternative union incl. float and bytes, union whose alternative holds a union, map of union holder, array of arrays of user / of int, " +
 	"map of maps, int-keyed map of user, three named levels Top>Mid>[]Inner, inline object in inline object, array / map of alias, Reference-inherited defaults) " +
-	"x {required, optional, Body(\"attr\")} + 27 whole-body shapes = 105 methods"
+	"x {required, optional, Body(\"attr\")} + 25 whole-body shapes = 103 methods"
 
 // DeepShapes is shape x position for one side.
 func DeepShapes(side string, thorough bool) []MethodCase {
@@ -334,15 +334,15 @@ const DeepValidationDoc = "deep-validation families (per side): keyword x deep p
 	"OneOf alternative of a union held by a user type inside an array; required field of an OPTIONAL object; field across mutually recursive types; one type at three positions; three named levels; " +
 	"field inherited through Reference (alone and inside an array); whole body = array of user / map of user / primitive alias / array of validated primitives / user type holding an array of user. " +
 	"keywords quick (6): enum_string, min_int, exmax_int, minlen_string, pattern_string, required-only; thorough (24): the 21 non-format keywords of the L1 menu, format date, format uuid, required-only; " +
-	"the required-only keyword is dropped at the 8 element positions and Bytes keywords at the 3 bare-element positions; " +
+	"the required-only keyword is dropped at the 7 element positions and Bytes keywords at the 3 bare-element positions; " +
 	"plus 8 collection-length cases (MaxLength / MinLength of an inner array: field of a user type inside an array, inner array of an array of arrays, map value, OneOf alternative). " +
-	"quick: 5x21 + 13 + 8 = 126 methods; thorough: 23x21 - 3 + 13 + 8 = 501 methods"
+	"quick: 5x21 + 14 + 8 = 127 methods; thorough: 23x21 - 3 + 14 + 8 = 502 methods"
 
 // DeepValidation is keyword x deep position for one side.
 func DeepValidation(side string, thorough bool) []MethodCase {
 	var out []MethodCase
 	n := 0
-	add := func(body *Type, form string, defs []*TypeDef, valid, pos string, req bool) {
+	add := func(body *Type, form string, defs []*TypeDef, valid, pos string, req bool, own bool) {
 		name := fmt.Sprintf("m%d", n)
 		m := deepMethod(side, name, body, form)
 		r := "optional"
@@ -350,7 +350,13 @@ func DeepValidation(side string, thorough bool) []MethodCase {
 			r = "required"
 		}
 		m.Feat = map[string]string{"family": "deep-validation-" + side, "valid": valid, "pos": pos, "loc": LocBody, "req": r}
-		out = append(out, MethodCase{M: m, Types: defs})
+		out = append(out, MethodCase{M: m, Types: defs, Own: own})
+	}
+	// A length rule declared on a OneOf alternative gets a design of its own: goa's example
+	// generator panics on it (known finding), and a generator failure takes the whole design
+	// with it; the neighbouring cases must not be lost.
+	lengthOnUnion := func(v *Valid, pos string) bool {
+		return v != nil && (v.MinLen != nil || v.MaxLen != nil) && strings.HasPrefix(pos, "union-")
 	}
 	for _, ve := range deepValidMenu(thorough) {
 		for _, dp := range deepPositions() {
@@ -366,7 +372,7 @@ func DeepValidation(side string, thorough bool) []MethodCase {
 				v = WithV(ve.Base, ve.V)
 			}
 			body, defs, req := dp.build(name, v)
-			add(body, "", defs, ve.Name, dp.Name, req)
+			add(body, "", defs, ve.Name, dp.Name, req, lengthOnUnion(ve.V, dp.Name) && dp.Elem)
 			n++
 		}
 	}
@@ -378,14 +384,14 @@ func DeepValidation(side string, thorough bool) []MethodCase {
 		inArr := func() *Type { return WithV(ArrT(P(KString)), lv.v) }
 		name := fmt.Sprintf("m%d", n)
 		oc := &TypeDef{Name: "Oc" + strings.ToUpper(name), Kind: "type", Attrs: []*Attr{A("tags", inArr()), A("id", P(KString))}, Required: []string{"id", "tags"}}
-		add(ObjT([]string{"aa"}, A("aa", ArrT(User(oc.Name)))), "", []*TypeDef{oc}, lv.name, "array-field-of-user-in-array", true)
+		add(ObjT([]string{"aa"}, A("aa", ArrT(User(oc.Name)))), "", []*TypeDef{oc}, lv.name, "array-field-of-user-in-array", true, false)
 		n++
-		add(ObjT([]string{"aa"}, A("aa", ArrT(inArr()))), "", nil, lv.name, "inner-array-of-array-of-arrays", true)
+		add(ObjT([]string{"aa"}, A("aa", ArrT(inArr()))), "", nil, lv.name, "inner-array-of-array-of-arrays", true, false)
 		n++
-		add(ObjT(nil, A("aa", MapT(P(KString), inArr()))), "", nil, lv.name, "array-as-map-value", false)
+		add(ObjT(nil, A("aa", MapT(P(KString), inArr()))), "", nil, lv.name, "array-as-map-value", false, false)
 		n++
 		name = fmt.Sprintf("m%d", n)
-		add(ObjT([]string{"u" + name}, A("u"+name, unionT(A("ul", inArr()), A("ub", P(KBool))))), "", nil, lv.name, "union-alternative-array", true)
+		add(ObjT([]string{"u" + name}, A("u"+name, unionT(A("ul", inArr()), A("ub", P(KBool))))), "", nil, lv.name, "union-alternative-array", true, true)
 		n++
 	}
 	return out
